@@ -301,7 +301,13 @@ func c06Check(c c06Case) (out kit.Outcome) {
 		namesFault := isJSON && body.ErrorType == first && (id == "" || strings.Contains(body.ErrorMessage, id))
 		// Did the runtime deliver a response for this invocation? "posted": the submission was issued before the caller
 		// returned (it may or may not have won against the fault); "accepted": its 202 was seen before the caller returned.
-		rid := invokedID(tr, tag)
+		// (the request id of this invocation is the one the platform dispatched inside this caller's window; the runtime's
+		// own view is the fall-back - a runtime killed by the previous reset may record the last event IT received, late,
+		// inside this window, and its id would make a delivered response of this invocation look undelivered)
+		rid := id
+		if rid == "" {
+			rid = invokedID(tr, tag)
+		}
 		posted, accepted := false, false
 		for k := range tr.Events {
 			e := &tr.Events[k]
